@@ -339,6 +339,18 @@ func drainUnlisted(sys *core.Sys) bool {
 	return ok
 }
 
+func setBoolField(ptr any, name string, v bool) {
+	f := reflect.ValueOf(ptr).Elem().FieldByName(name)
+	if f.IsValid() && f.CanSet() && f.Kind() == reflect.Bool {
+		f.SetBool(v)
+	}
+}
+
+func getBoolField(val any, name string) bool {
+	f := reflect.ValueOf(val).FieldByName(name)
+	return f.IsValid() && f.Kind() == reflect.Bool && f.Bool()
+}
+
 // restartProps: which properties a finding about a restarted runner refutes
 func restartProps(sig string) []string {
 	if len(sig) > 4 && sig[:4] == "C03:" || sig == "C10:first-request-after-restart-not-started" {
@@ -519,10 +531,13 @@ func PreparedStoreCase(seed int64, workDir string) *HistResult {
 				}
 			}
 			if pt.Status == "error" {
-				pt.Errored = true
-				e := []string{"exit status 1", "üñï \"quoted\"\nline", "x"}[r.Intn(3)]
-				pt.Error = &e
-				pt.ExitCode = int16(1 + r.Intn(254))
+				if r.Intn(3) != 0 {
+					// (set by name: the harness keeps building if the persisted format changes)
+					setBoolField(&pt, "Errored", true)
+					e := []string{"exit status 1", "üñï \"quoted\"\nline", "x"}[r.Intn(3)]
+					pt.Error = &e
+					pt.ExitCode = int16(1 + r.Intn(254))
+				} // else: a task whose stage failed without the runner reporting it (status error, not errored)
 			}
 			pj.Tasks = append(pj.Tasks, pt)
 		}
@@ -566,7 +581,7 @@ func PreparedStoreCase(seed int64, workDir string) *HistResult {
 			exp.HasError, exp.LastError = true, *pj.LastError
 		}
 		for _, pt := range pj.Tasks {
-			ts := core.TaskSnap{Name: pt.Name, Status: pt.Status, Start: pt.Start, End: pt.End, Skipped: pt.Skipped, ExitCode: pt.ExitCode, Errored: pt.Errored, DependsOn: pt.DependsOn}
+			ts := core.TaskSnap{Name: pt.Name, Status: pt.Status, Start: pt.Start, End: pt.End, Skipped: pt.Skipped, ExitCode: pt.ExitCode, Errored: getBoolField(pt, "Errored"), DependsOn: pt.DependsOn}
 			if pt.Error != nil {
 				ts.HasError, ts.Error = true, *pt.Error
 			}
